@@ -100,7 +100,7 @@ prop(
 
 prop(
     "C19",
-    contract_modules=["contracts.c19"],
+    contract_modules=["contracts.c19", "contracts.c19t"],
     bcc="c19",
     level="proof",
     claimed=True,
@@ -108,7 +108,7 @@ prop(
     assumptions=['after handle.flush()/sync() the bytes are in the OS page cache, which survives process death', 'PyTables EArray.append and netCDF slice assignment extend along axis 0 and reject shape mismatches before changing anything'],
     explanation='Rep(W) preservation and exceptional postconditions.',
     technique='contract-based deductive verification: symbolic execution of the real Python source against sidecar contracts, VCs to z3/cvc5; bounded partition/refusal/crash enumeration on real files as labelled stand-in for the Cython and text writers',
-    level_text='Writer representation invariant for HDF5TrajectoryFile and NetCDFTrajectoryFile proved for one write() on an arbitrary state (symbolic frames-so-far n0, batch length n, atom counts, every schema combination): accepted batches extend every stored field by exactly the batch (=> any partition equals one call, by induction), ragged batches raise ValueError with every stored field and the position unchanged, HDF5 write ends with flush, flush() calls the library flush. Text and Cython writers, and durability after flush (crash points), are bounded-only.',
+    level_text='Writer representation invariant for HDF5TrajectoryFile and NetCDFTrajectoryFile proved for one write() on an arbitrary state (symbolic frames-so-far n0, batch length n, atom counts, every schema combination): accepted batches extend every stored field by exactly the batch (=> any partition equals one call, by induction), ragged batches raise ValueError with every stored field and the position unchanged, HDF5 write ends with flush, flush() calls the library flush. The streaming text writers xyz and mdcrd: one call with two frames and two calls with one frame each produce identical token streams (symbolic coordinates, formatted numbers as tokens), the documented layouts, one mdcrd title line, and a write that adds or drops the cell lengths is refused with ValueError before anything is written. The other text writers, the Cython writers, and durability after flush (crash points) are bounded-only.',
     level_note='Trusted: PyTables append / netCDF unlimited-dimension assignment models; third-party durability of flush/sync is assumed and exercised by the bounded crash check.',
 )
 
@@ -191,7 +191,7 @@ prop(
 
 prop(
     "C08",
-    contract_modules=["contracts.c13", "contracts.c15"],
+    contract_modules=["contracts.c13", "contracts.c15", "contracts.c08"],
     bcc="c08",
     level="other",
     claimed=False,
@@ -310,7 +310,7 @@ _TEXTS = {
             "compute_distances_core dispatch (minimum-image path iff periodic and cell; orthorhombic kernel iff every frame orthogonal; box transposed once); "
             "the time-pair kernels dist_t / dist_mic_t / dist_mic_triclinic_t (atom a from frame t1, atom b from frame t2, cell of t1, cell pointer restored after every time pair). "
             "The NumPy reference path (opt=False): _distance, _displacement, _reduce_box_vectors (lattice-preserving, reduced), _distance_mic (wrapped vector in the "
-            "centred cell, minimum over its 27 images) on symbolic coordinates. Bounded only: float32 effects, _displacement_mic, the _t reference paths."),
+            "centred cell, minimum over its 27 images) on symbolic coordinates. _displacement_mic (orthorhombic) and _distance_mic_t (cell of the first frame of the time pair; orthorhombic and general cells) over the contract of _reduce_box_vectors. Bounded only: float32 effects, _displacement_mic on general cells, _distance_t / _displacement_mic_t."),
     "C06": (_T_C, "Deductive: msdFromMandG on a symbolic inner-product matrix: the code's C_2, C_1, C_0 are the coefficients of det(K - xI) for the Horn/Theobald key "
             "matrix K(M) (exact polynomial identities on the code's own terms), Horn's identity q^T K q = <R(q), M>, msd = max(0,(G_x+G_y-2 lambda)/N), the code's quaternion is "
             "the cofactor vector of K - lambda I (an eigenvector), rot = R(q/|q|) with R^T R = I and det R = +1; Trajectory.superpose / center_coordinates keep the trace "
@@ -326,8 +326,10 @@ _TEXTS = {
             "_atom_sequence on 4 topologies; dispatch of compute_angles/compute_dihedrals (orthogonal flag over all frames). Bounded only: float32, chi/phi/psi on real proteins."),
     "C08": (_T_C, "Deductive: asa_frame gives every selected atom an area that is a function of that frame's coordinates only, for ARBITRARY contents of the re-used scratch "
             "buffers on entry (covers every thread schedule); sasa hands every frame its own coordinates and accumulates into that frame's row only; the DSSP driver computes "
-            "hydrogen bonds, sheets, helices and bends of frame i from frame i's coordinates and a fresh table. #pragma omp itself is not interpreted. Bounded only: every "
-            "other per-frame analysis (rmsd, drid, neighbours, contacts, ...) and bit-identity across OMP_NUM_THREADS."),
+            "hydrogen bonds, sheets, helices and bends of frame i from frame i's coordinates and a fresh table; the distance kernels dist / dist_mic, the angle and dihedral kernels "
+            "and kabsch_sander write, for an arbitrary frame of a trajectory of symbolic length, a value that is a function of that frame alone into that frame's slots and nothing "
+            "else (their C05 / C07 / C14 contracts, re-registered). #pragma omp itself is not interpreted. Bounded only: the remaining per-frame analyses (rmsd, drid, "
+            "neighbours, contacts, ...) and bit-identity across OMP_NUM_THREADS."),
     "C09": (_T_PY, "Deductive: only corollaries of other contracts: hydrogen-bond criteria use minimum-image distances for all three sides with the caller's periodic "
             "flag; the distance/angle kernels depend on coordinates through differences (C05/C07 contracts). Bounded only: rigid-motion and lattice-shift invariance of every "
             "observable in float32, neighbour-list voxel hashing (known findings)."),
